@@ -279,6 +279,36 @@ static inline %(T)s* vf_seq_%(G)s_erase_range(struct vf_seq_%(G)s* s, %(T)s* fir
   s->n -= k;
   return first;
 }
+/* insert(pos, first, last): exact for at most VF_CAP present and at most VF_CAP inserted elements (unrolled, no loop).
+   The _rev variant takes the base() pointers of a reverse-iterator range [rbegin, rend): elements rb[-1], rb[-2], ... */
+static inline %(T)s* vf_seq_%(G)s_insert_range(struct vf_seq_%(G)s* s, %(T)s* it, %(T)s* first, %(T)s* last)
+{
+  size_t idx = (size_t)(it - (s->d + s->h));
+  size_t k = (size_t)(last - first);
+  %(T)s tmp[VF_CAP];
+  __CPROVER_assert(idx <= s->n, "vf_seq insert position in range");
+  __CPROVER_assert(s->n <= VF_CAP, "vf_seq within model capacity");
+  __CPROVER_assume(k <= VF_CAP && s->h + s->n + k <= s->cap);
+  VF_FOR_CAP(if (i < s->n) tmp[i] = s->d[s->h + i];)
+  VF_FOR_CAP(if (idx <= i && i < s->n) s->d[s->h + i + k] = tmp[i];)
+  VF_FOR_CAP(if (i < k) s->d[s->h + idx + i] = first[i];)
+  s->n += k;
+  return s->d + s->h + idx;
+}
+static inline %(T)s* vf_seq_%(G)s_insert_range_rev(struct vf_seq_%(G)s* s, %(T)s* it, %(T)s* rb, %(T)s* re)
+{
+  size_t idx = (size_t)(it - (s->d + s->h));
+  size_t k = (size_t)(rb - re);
+  %(T)s tmp[VF_CAP];
+  __CPROVER_assert(idx <= s->n, "vf_seq insert position in range");
+  __CPROVER_assert(s->n <= VF_CAP, "vf_seq within model capacity");
+  __CPROVER_assume(k <= VF_CAP && s->h + s->n + k <= s->cap);
+  VF_FOR_CAP(if (i < s->n) tmp[i] = s->d[s->h + i];)
+  VF_FOR_CAP(if (idx <= i && i < s->n) s->d[s->h + i + k] = tmp[i];)
+  VF_FOR_CAP(if (i < k) s->d[s->h + idx + i] = re[k - 1 - i];)
+  s->n += k;
+  return s->d + s->h + idx;
+}
 '''
 
 EXACT_MAX = 16
@@ -381,6 +411,13 @@ static inline %(T)s* vf_set_%(G)s_find(struct vf_set_%(G)s* s, %(T)s v)
 static inline size_t vf_set_%(G)s_count(struct vf_set_%(G)s* s, %(T)s v) { return vf_set_%(G)s_find(s, v) != s->k + s->n; }
 static inline _Bool vf_set_%(G)s_contains(struct vf_set_%(G)s* s, %(T)s v) { return vf_set_%(G)s_find(s, v) != s->k + s->n; }
 static inline void vf_set_%(G)s_insert(struct vf_set_%(G)s* s, %(T)s v) { if (vf_set_%(G)s_find(s, v) == s->k + s->n) { __CPROVER_assume(s->n < s->cap); s->k[s->n] = v; s->n++; } }
+static inline _Bool vf_set_%(G)s_insert_new(struct vf_set_%(G)s* s, %(T)s v) { if (vf_set_%(G)s_find(s, v) == s->k + s->n) { __CPROVER_assume(s->n < s->cap); s->k[s->n] = v; s->n++; return 1; } return 0; }
+static inline void vf_set_%(G)s_insert_range(struct vf_set_%(G)s* s, %(T)s* first, %(T)s* last)
+{
+  size_t k = (size_t)(last - first);
+  __CPROVER_assume(k <= VF_CAP);
+  VF_FOR_CAP(if (i < k) vf_set_%(G)s_insert(s, first[i]);)
+}
 static inline size_t vf_set_%(G)s_erase(struct vf_set_%(G)s* s, %(T)s v)
 {
   %(T)s* p = vf_set_%(G)s_find(s, v);
